@@ -8,7 +8,9 @@ Two parts on ONE harness binary (harness/rt/scn_c14.cpp + harness/rt/rt_io.cpp: 
 io_epoll_context under the controlled scheduler, real pipes/eventfd/epoll in the kernel,
 epoll_wait / epoll_ctl / readv / writev / read / write / close interposed, fault schedule):
   remotequeue  rq_*          vs Lean model Proto/RemoteQueue (parametric theorems, Props/C14)
-  epollop      rd_* / wr_*   vs Lean model Proto/EpollOp   (instance theorems, Props/C14_ops, C14_cancel, C14_race)
+  epollop      rd_* / wr_* / x2_read   vs Lean model Proto/EpollOp (+EpollOp2)  (instance theorems, Props/C14_ops, C14_cancel, C14_race, C14_more)
+  twoctx       x2_schedule   vs Lean model Proto/TwoCtx (product of two RemoteQueue instances; Props/C14_two: the parametric
+                             RemoteQueue invariant holds for both contexts in every schedule of the product)
 
 The EpollOp model follows the code WITH the errno repair (/repo 1b893b7) and WITH the cancellation
 repair of tools/checks/c14_repair.patch (stale epoll registration / stopCallback_ never destructed in
@@ -20,7 +22,9 @@ from ..runner import run_check
 LIBS = ["linux/io_epoll_context.cpp", "linux/safe_file_descriptor.cpp", "linux/monotonic_clock.cpp", "inplace_stop_token.cpp"]
 RQ_SCENARIOS = ["rq_one", "rq_two", "rq_burst", "rq_stop_early"]
 IO_SCENARIOS = ["rd_ready", "rd_park", "rd_eagain_fault", "rd_short", "rd_cancel_parked", "rd_cancel_race",
-                "rd_cancel_before_start", "rd_error_start", "rd_error_retry", "wr_ready", "wr_park", "wr_cancel_parked"]
+                "rd_cancel_before_start", "rd_error_start", "rd_error_retry", "wr_ready", "wr_park", "wr_cancel_parked",
+                "wr_cancel_before_start", "rd_cancel_before_start_park", "x2_read"]
+X2_SCENARIOS = ["x2_schedule"]
 
 class IoPart(AtomicPart):
     def __init__(self, name, model, scenarios):
@@ -40,10 +44,12 @@ class IoPart(AtomicPart):
 
 
 def run(tier, seed, replay=None):
-    parts = [IoPart("remotequeue", "remotequeue", RQ_SCENARIOS), IoPart("epollop", "epollop", IO_SCENARIOS)]
+    parts = [IoPart("remotequeue", "remotequeue", RQ_SCENARIOS), IoPart("epollop", "epollop", IO_SCENARIOS),
+             IoPart("twoctx", "twoctx", X2_SCENARIOS)]
     return run_check(
-        "C14", tier, seed, ["UnifexModel.Props.C14", "UnifexModel.Props.C14_ops", "UnifexModel.Props.C14_cancel", "UnifexModel.Props.C14_race"], parts,
-        rule="every schedule (DFS preemption-bounded + random + PCT walks) of 4 remote-scheduling scenarios and 12 read/write scenarios on the real "
+        "C14", tier, seed, ["UnifexModel.Props.C14", "UnifexModel.Props.C14_ops", "UnifexModel.Props.C14_cancel", "UnifexModel.Props.C14_race",
+                "UnifexModel.Props.C14_more", "UnifexModel.Props.C14_two"], parts,
+        rule="every schedule (DFS preemption-bounded + random + PCT walks) of 4 remote-scheduling scenarios, 15 read/write scenarios and 1 two-context scenario on the real "
              "io_epoll_context under the controlled scheduler with interposed syscalls and a fault schedule; a case = one distinct observable history "
              "(API calls/returns, syscall results, completions); non-trivial = admitted by the Lean model of the same name",
         assumptions=["sequentially consistent atomics (memory orders ignored)",
